@@ -3,7 +3,7 @@ from __future__ import annotations
 
 import ast
 
-from ..lib import Facts, calls_in, len_eq, own_nodes, stmt_of
+from ..lib import norm_atom, Facts, calls_in, len_eq, own_nodes, stmt_of
 from ..model import AnalysisError, FuncInfo
 from ..report import Run
 from ..terms import TermCtx, contains, show, strip_sites, unphi_terms
@@ -568,6 +568,29 @@ def _check_brackets(run: Run, tt) -> None:
         for a, pol in fx.atoms:
             if isinstance(a, ast.Compare) and "COMMENT" in ast.unparse(a) and isinstance(a.ops[0], ast.Eq) and not pol:
                 ok_c = True
+    if not ok_c and len(ys) == 1:
+        # per path through one iteration: a path that reaches the yield knows the token is no comment - because the
+        # comment test failed on it, or because the token's type was found equal to another kind
+        loops_ = [n for n in own_nodes(tt) if isinstance(n, ast.For) and any(y_ is ys[0] for y_ in ast.walk(n))]
+        if len(loops_) == 1 and fa.cfg.has_node(loops_[0]):
+            head_ = fa.cfg.node_of(loops_[0])
+            yn_ = fa.cfg.node_of(ys[0])
+            inside_ = {id(fa.cfg.node_of(x)) for x in ast.walk(loops_[0]) if fa.cfg.has_node(x)}
+            try:
+                paths_ = fa.cfg.body_paths(head_, lambda c_: id(c_) in inside_)
+            except AnalysisError:
+                paths_ = []
+            through = [(p_, f_) for p_, f_ in paths_ if any(c_ is yn_ for c_ in p_)]
+
+            def _knows(f_):
+                for a, pol in [norm_atom(a0, p0) for a0, p0 in f_]:
+                    if isinstance(a, ast.Compare) and len(a.ops) == 1 and isinstance(a.ops[0], ast.Eq) and isinstance(a.left, ast.Attribute) and a.left.attr == "type":
+                        kind = ast.unparse(a.comparators[0]).split(".")[-1]
+                        if (kind == "COMMENT" and not pol) or (kind != "COMMENT" and kind.isupper() and pol):
+                            return True
+                return False
+
+            ok_c = bool(through) and all(_knows(f_) for _p, f_ in through)
     run.check(ok_c, "C03.R4", tt, tt.node, "comment tokens are dropped", "comment tokens are not skipped: text in a comment becomes part of the recovered lambda source")
 
 
